@@ -487,6 +487,25 @@ def variant_arms(prog, f, adt_last, variant):
         for val, tb in t["targets"]:
             if val == dv:
                 out.append((bb, tb))
+    # the same decision written as a comparison with the constant (`if outcome != Outcome::AlreadyExisted { .. return }`):
+    # the "arm" is the side of the test on which the value equals the variant
+    import predicates as _P
+    for c in f.live_calls():
+        if c.name not in ("eq", "ne") or len(c.args) != 2 or c.expn:
+            continue
+        if adt_last not in " ".join([c.self_ty or ""] + [str(x) for x in (c.gen or [])]):
+            continue
+        ds = [_P.describe(f, a) for a in c.args]
+        if ("const", variant) not in ds:
+            continue
+        true_edges = bool_true_edges(f, c)
+        for (w, tb) in true_edges:
+            if c.name == "eq":
+                out.append((w, tb))
+            else:
+                for sx in f.succs()[w]:
+                    if sx != tb:
+                        out.append((w, sx))
     return out
 
 
